@@ -323,6 +323,76 @@ group_blocks = FunctionContract(
 CONTRACTS.append(group_blocks)
 
 
+# ------------------------------------------------------------------ write_molecule_itp: the head of one section
+HEv = TTuple(TInt, TStr, names=['kind', 'text'])           # 0 section header (the name between the brackets)  1 a user's pre-section line + newline
+
+
+def setup_head(cx):
+    from pyvc.builtins import list_append
+    eng = cx.eng
+    name0 = cx.val('name', TStr)
+    cx.spec_env['NAME0'] = name0
+    HEV = cx.heap('HEV', cx.box('HEV', TSeq(HEv)))
+    inter = cx.val('INTER', TSeq(Inter))                     # molecule.interactions[name]
+    srt = cx.val('SORTED', TSeq(Inter))                      # sorted(INTER, key=_interaction_sorting_key): by the contract of sorted()
+    cx.spec_env.update(INTER=inter, SORTED=srt)
+    pre = cx.uf('pre_lines', [TStr], TSeq(TStr))             # pre_section_lines.get(section, [])
+    seen = cx.box('seen_sections', TSet(TStr))
+    keyf = Obj('_interaction_sorting_key')
+
+    def inter_of(e, k):
+        e.oblige(to_z3(k, TStr) == name0.e, 'interactions:of-the-section-as-the-molecule-names-it')
+        return inter
+
+    def sorted_(e, xs, key=None, reverse=False):
+        e.oblige(isinstance(xs, SV) and z3.eq(xs.e, inter.e) and key is keyf and not reverse, 'sorted:these-interactions-by-the-sorting-key')
+        return srt
+    eng.format_hooks['[ {} ]\n'] = lambda e, a: ('header', a)
+
+    def write(e, x):
+        if isinstance(x, tuple) and x[0] == 'header':
+            return list_append(e, HEV, (0, x[1]))
+        if isinstance(x, SV) and x.ty == TStr:
+            return list_append(e, HEV, (1, x))
+        raise EngineError('outfile.write of %r' % (x,))
+    cx.spec_env['sorted'] = Builtin(sorted_, 'sorted')
+    cx.spec_env['_interaction_sorting_key'] = keyf
+    return dict(name=name0, molecule=Obj('Molecule', interactions=Obj('interactions', __getitem__=Builtin(inter_of, 'molecule.interactions[]'))),
+                seen_sections=seen, outfile=Obj('outfile', write=Builtin(write, 'outfile.write')),
+                pre_section_lines=Obj('pre_section_lines', get=Builtin(lambda e, k, d=None: SV(TSeq(TStr), pre(to_z3(k, TStr))), 'pre_section_lines.get')))
+
+
+SPEC_HEAD = {
+    'section': "lambda: 'dihedrals' if NAME0 == 'impropers' else NAME0",
+}
+section_head = FunctionContract(
+    F, 'write_molecule_itp', 'C02', short='write_molecule_itp[head of one section]', setup=setup_head, spec_defs=SPEC_HEAD,
+    spec_env=dict(Inter=Inter),
+    region=dict(within=["for name in molecule.sort_interactions(molecule.interactions):"],
+                start="interactions = molecule.interactions[name]", end="interaction_grouped = itertools.groupby("),
+    ensures=[
+        # the interactions the molecule keeps as impropers are written under [ dihedrals ], every other section under its own name;
+        # that name is also the one the rest of the section goes by (the layout of n-body virtual sites, the post-section lines)
+        "name == section()",
+        "len(HEV) == len(old(HEV)) + 1 + len(pre_lines(section()))",
+        "HEV[len(old(HEV))] == (0, section())",
+        "forall(lambda k: implies(0 <= k and k < len(pre_lines(section())), HEV[len(old(HEV)) + 1 + k] == (1, pre_lines(section())[k] + '\\n')))",
+        "forall(lambda k: implies(0 <= k and k < len(old(HEV)), HEV[k] == old(HEV)[k]))",
+        "forall(lambda x: (x in seen_sections) == (x in old(seen_sections) or x == section()), TStr)",
+        # what is written are the interactions the molecule holds under its own name for the section, arranged by sorted()
+        "interactions_group_sorted == SORTED",
+    ],
+    modifies=['HEV', 'seen_sections'],
+    loops={'L1': LoopSpec(inv=["len(HEV) == len(old(HEV)) + 1 + _i", "HEV[len(old(HEV))] == (0, section())",
+                               "forall(lambda k: implies(0 <= k and k < _i, HEV[len(old(HEV)) + 1 + k] == (1, pre_lines(section())[k] + '\\n')))",
+                               "forall(lambda k: implies(0 <= k and k < len(old(HEV)), HEV[k] == old(HEV)[k]))"],
+                          modifies=['HEV'])},
+    canary=[("if name == 'impropers':", "if name == 'dihedrals':"), ("seen_sections.add(name)", "seen_sections.add('dihedrals')"),
+            ("            name = 'dihedrals'", "            name = 'impropers'")],
+)
+CONTRACTS.append(section_head)
+
+
 def extra_obligations(tier):
     obs = []
 
@@ -340,12 +410,7 @@ def extra_obligations(tier):
         src = {_ast.unparse(st.targets[0]): _ast.unparse(st.value) for st in loop.body if isinstance(st, _ast.Assign) and len(st.targets) == 1}
         ob('template:values-of-this-node', src.get(star) == 'copy.copy(atom)' and src.get('atom') == 'molecule.nodes[original_idx]',
            'the fields are filled from **%s = %s with atom = %s' % (star, src.get(star), src.get('atom')), bad=False)
-        # sections: impropers are written under [ dihedrals ]; virtual_sitesn: first atom, parameters, then the other atoms
-        text = _ast.unparse(fn)
-        ob('sections:impropers-under-dihedrals', "if name == 'impropers'" in text.replace('"', "'") and "'dihedrals'" in text.replace('"', "'"),
-           'impropers are renamed to dihedrals when the section header is written', bad=False)
-        ob('sections:virtual_sitesn-layout', 'virtual_sitesn' in text and 'atoms[0]' in text.replace(' ', '') or 'atoms[:1]' in text.replace(' ', ''),
-           'n-body virtual sites are written with the function type after the first atom', bad=False)
+        # (the renaming of impropers and the layout of n-body virtual sites are contracts now: section_head, one_line)
         keys = next((_ast.literal_eval(st.value) for st in _ast.walk(fn) if isinstance(st, _ast.Assign) and isinstance(st.targets[0], _ast.Name)
                      and st.targets[0].id == 'conditional_keys'), None)
         ob('guards:keywords', keys == {True: '#ifdef', False: '#ifndef'}, 'conditional_keys = %r' % (keys,), bad=keys is not None)
